@@ -327,12 +327,22 @@ Definition rule_b (md : mode) (pq : Q) (ms : list Q) (own : Q) : bool :=
 
 (* ---- rung level construction: utils/successive_halving.py -------------------------------- *)
 
-(* [min_t * rf^k for k in range(max_rungs)], max_rungs = number of k with min_t * rf^k < max_t
-   (integer reduction factor: np.power and round are exact); [fuel] bounds the while loop *)
-Fixpoint geo_levels (fuel : nat) (cur rf max_t : Z) : list Z :=
+(* Python round() on a float: round half to even (exact rationals here) *)
+Definition round_half_even (x : Q) : Z :=
+  let f := Qfloor x in
+  match Qcompare (x - inject_Z f) (1 # 2) with
+  | Lt => f
+  | Gt => (f + 1)%Z
+  | Eq => if Z.even f then f else (f + 1)%Z
+  end.
+
+(* [int(round(min_t * rf^k)) for k in range(max_rungs)], max_rungs = number of k with min_t * rf^k < max_t;
+   [cur] = min_t * rf^k (NOT rounded: the closed form, roundings do not compound); the reduction factor is a
+   rational (the exact value of the float); [fuel] bounds the while loop *)
+Fixpoint geo_levels (fuel : nat) (cur rf : Q) (max_t : Z) : list Z :=
   match fuel with
   | O => []
-  | S f => if (cur <? max_t)%Z then cur :: geo_levels f (cur * rf)%Z rf max_t else []
+  | S f => if Qltb cur (inject_Z max_t) then round_half_even cur :: geo_levels f (cur * rf) rf max_t else []
   end.
 
 (* list(range(grace_period, max_t, rung_increment)) *)
@@ -350,9 +360,9 @@ Fixpoint strictly_increasing (l : list Z) : bool :=
   end.
 
 (* successive_halving_rung_levels(rung_levels, grace_period, reduction_factor, rung_increment, max_t);
-   None = one of its assertions fails. Integer reduction factors only. *)
-Definition sh_rung_levels (rung_levels : option (list Z)) (grace_period : Z) (reduction_factor rung_increment : option Z)
-           (max_t : Z) : option (list Z) :=
+   None = one of its assertions fails. *)
+Definition sh_rung_levels (rung_levels : option (list Z)) (grace_period : Z) (reduction_factor : option Q)
+           (rung_increment : option Z) (max_t : Z) : option (list Z) :=
   let lv :=
     match rung_levels with
     | Some l =>
@@ -362,7 +372,7 @@ Definition sh_rung_levels (rung_levels : option (list Z)) (grace_period : Z) (re
     | None =>
         if (1 <=? grace_period)%Z && (1 <=? max_t)%Z && (grace_period <? max_t)%Z then
           match reduction_factor with
-          | Some rf => if (2 <=? rf)%Z then Some (geo_levels (Z.to_nat max_t) grace_period rf max_t) else None
+          | Some rf => if Qleb 2 rf then Some (geo_levels (Z.to_nat max_t) (inject_Z grace_period) rf max_t) else None
           | None =>
               match rung_increment with
               | Some incr => if (1 <=? incr)%Z then Some (arith_levels (Z.to_nat max_t) grace_period incr max_t)
